@@ -1766,6 +1766,10 @@ func runC17(c *ctx) {
 				st := c17stale{kind: f[5], arg: c17unhex(f[6]), follow: f[7], t: t}
 				c17judgeStale(c, d, f[3], st, c17runStale(d, f[3], st, seg), c.replay, true)
 			}
+		case len(f) == 5 && f[0] == "c17layer":
+			if d := c17find(defs, f[1], f[2]); d != nil {
+				c17layer(c, d, f[3], f[4], true)
+			}
 		case len(f) == 2 && f[0] == "c17user":
 			sd, _ := strconv.ParseUint(f[1], 10, 64)
 			c17user(c, []uint64{sd}, true)
@@ -1896,6 +1900,25 @@ func runC17(c *ctx) {
 		wg.Wait()
 		for _, j := range sjobs {
 			c17judgeStale(c, j.d, j.cur, j.st, j.out, c17staleLine(j.d, j.cur, j.st, j.seg), false)
+		}
+	}
+	// 4a'. user options layered on every embedded definition: replaced level tree + default in both
+	// orders (quick: the two critical orders for every definition, shape rotating; thorough: all)
+	for i, d := range defs {
+		if d.kind != "network" {
+			continue
+		}
+		for si, shape := range c17layerShapes {
+			if !c.thorough() && (uint64(i+si)+c.seed)%3 != 0 {
+				continue
+			}
+			orders := []string{"levels-first", "default-first"}
+			if c.thorough() || (uint64(i)+c.seed)%2 == 0 {
+				orders = append(orders, "levels-then-default", "default-then-levels")
+			}
+			for _, order := range orders {
+				c17layer(c, d, shape, order, false)
+			}
 		}
 	}
 	// 4b. histories: load, mutate the instance through every handle, load the same name again
